@@ -2,7 +2,7 @@ use std::hash::Hash;
 use std::str::FromStr;
 
 use chrono::Duration;
-use tea_error::{TError, TResult, tbail, tensure};
+use tea_error::{TError, TResult, tbail, tensure, terr};
 
 use crate::convert::*;
 
@@ -116,15 +116,22 @@ impl TimeDelta {
     /// assert_eq!(td.inner, chrono::Duration::seconds(3 * 86400 + 4 * 3600 + 5 * 60 + 6));
     /// ```
     pub fn parse(duration: &str) -> TResult<Self> {
-        let mut nsecs = 0;
-        let mut secs = 0;
-        let mut months = 0;
+        let mut nsecs: i64 = 0;
+        let mut secs: i64 = 0;
+        let mut months: i32 = 0;
         let mut iter = duration.char_indices();
         let mut start = 0;
         let mut unit = String::with_capacity(2);
+        let overflow = || terr!(ParseError:"duration '{}' is out of range", duration);
+        // `acc + n * k`, `None` when it does not fit
+        let add_i64 = |acc: i64, n: i64, k: i64| n.checked_mul(k)?.checked_add(acc);
+        let add_i32 =
+            |acc: i32, n: i64, k: i32| i32::try_from(n).ok()?.checked_mul(k)?.checked_add(acc);
         while let Some((i, mut ch)) = iter.next() {
             if !ch.is_ascii_digit() && i != 0 {
-                let n = duration[start..i].parse::<i64>().unwrap();
+                let Ok(n) = duration[start..i].parse::<i64>() else {
+                    tbail!(ParseError:"invalid number '{}' in the duration string", &duration[start..i])
+                };
                 loop {
                     if ch.is_ascii_alphabetic() {
                         unit.push(ch)
@@ -144,22 +151,24 @@ impl TimeDelta {
                 tensure!(!unit.is_empty(), ParseError:"expected a unit in the duration string");
 
                 match unit.as_str() {
-                    "ns" => nsecs += n,
-                    "us" => nsecs += n * NANOS_PER_MICRO,
-                    "ms" => nsecs += n * NANOS_PER_MILLI,
-                    "s" => secs += n,
-                    "m" => secs += n * SECS_PER_MINUTE,
-                    "h" => secs += n * SECS_PER_HOUR,
-                    "d" => secs += n * SECS_PER_DAY,
-                    "w" => secs += n * SECS_PER_WEEK,
-                    "mo" => months += n as i32,
-                    "y" => months += n as i32 * 12,
+                    "ns" => nsecs = add_i64(nsecs, n, 1).ok_or_else(overflow)?,
+                    "us" => nsecs = add_i64(nsecs, n, NANOS_PER_MICRO).ok_or_else(overflow)?,
+                    "ms" => nsecs = add_i64(nsecs, n, NANOS_PER_MILLI).ok_or_else(overflow)?,
+                    "s" => secs = add_i64(secs, n, 1).ok_or_else(overflow)?,
+                    "m" => secs = add_i64(secs, n, SECS_PER_MINUTE).ok_or_else(overflow)?,
+                    "h" => secs = add_i64(secs, n, SECS_PER_HOUR).ok_or_else(overflow)?,
+                    "d" => secs = add_i64(secs, n, SECS_PER_DAY).ok_or_else(overflow)?,
+                    "w" => secs = add_i64(secs, n, SECS_PER_WEEK).ok_or_else(overflow)?,
+                    "mo" => months = add_i32(months, n, 1).ok_or_else(overflow)?,
+                    "y" => months = add_i32(months, n, 12).ok_or_else(overflow)?,
                     unit => tbail!(ParseError:"unit: '{}' not supported", unit),
                 }
                 unit.clear();
             }
         }
-        let duration = Duration::seconds(secs) + Duration::nanoseconds(nsecs);
+        let duration = Duration::try_seconds(secs)
+            .and_then(|d| d.checked_add(&Duration::nanoseconds(nsecs)))
+            .ok_or_else(overflow)?;
         Ok(TimeDelta {
             months,
             inner: duration,
